@@ -402,7 +402,7 @@ class Recorder:
 
 # ------------------------------------------------------------------ running one case against the real code
 
-def run_case(case, workdir=None):
+def run_case(case, workdir=None, backend_factory=None):
     """Build the graph, run the real Lab.run_tasks under the chosen runner, return the observation dict."""
     built = Built(case)
     rec = Recorder(built.tid_of)
@@ -412,7 +412,9 @@ def run_case(case, workdir=None):
     if case['storage'] == 'local':
         storage = os.path.join(workdir, 'store')
     rng = random.Random(case['sched_seed'])
-    if case['runner'] == 'l1':
+    if backend_factory is not None:
+        backend = backend_factory(rec)
+    elif case['runner'] == 'l1':
         backend = L1Backend(rng, rec)
     else:
         inner = {'serial': SerialRunnerBackend, 'fork': ForkRunnerBackend, 'spawn': SpawnRunnerBackend}[case['runner']]()
